@@ -24,8 +24,10 @@ for pid in ["C01", "C02", "C03", "C04", "C05", "C06"]:
     reg(pid, "mon-exec")
 reg("C07", "mon-wasm")
 reg("C08", "mon-importer")
-for pid in ["C09", "C10", "C11", "C12", "C13", "C14"]:
+for pid in ["C10", "C13", "C14"]:
     reg(pid, "mon-kv")
+for pid in ["C09", "C11", "C12"]:
+    reg(pid, "mon-db")
 reg("C15", "mon-consensus")
 for pid in ["C16", "C17", "C18", "C19", "C20", "C21"]:
     reg(pid, "mon-txpool")
@@ -45,7 +47,7 @@ for pid in ["C36", "C37", "C38", "C45"]:
 for pid in ["C39", "C40"]:
     reg(pid, "mon-genesis")
 reg("C41", "mon-service")
-reg("C42", "mon-seqlock")
+reg("C42", "mon-seqlock", steps=[cargo("mon-seqlock"), {"name": "miri-seqlock", "crate": "miri-seqlock", "build": [], "run": ["python3", "{root}/lib/miri_seqlock.py"], "replayable": False, "kind": "cargo +nightly miri run over a crate that #[path]-includes the real seqlock.rs"}])
 reg("C43", "mon-aggregator")
 
 # per-property overrides (level, readiness, texts) live in props_meta.py so that
